@@ -19,6 +19,7 @@ import (
 	"slices"
 	"strings"
 	"time"
+	"unicode/utf8"
 
 	"github.com/saucelabs/forwarder/hostsfile"
 	"github.com/saucelabs/forwarder/httplog"
@@ -30,6 +31,7 @@ import (
 	"github.com/saucelabs/forwarder/pac"
 	"github.com/saucelabs/forwarder/ruleset"
 	"go.uber.org/multierr"
+	"golang.org/x/net/idna"
 	"golang.org/x/sync/errgroup"
 )
 
@@ -587,7 +589,8 @@ func (hp *HTTPProxy) denyLocalhost() martian.RequestModifier {
 
 func (hp *HTTPProxy) denyDomains(r Matcher) martian.RequestModifier {
 	return martian.RequestModifierFunc(func(req *http.Request) error {
-		if r.Match(req.URL.Hostname()) {
+		// Match the name as written by the client and the name the transport will connect to.
+		if h := req.URL.Hostname(); r.Match(h) || r.Match(asciiHostname(h)) {
 			return ErrProxyDenied
 		}
 		return nil
@@ -621,7 +624,7 @@ func (hp *HTTPProxy) directLocalhost(fn ProxyFunc) ProxyFunc {
 }
 
 func (hp *HTTPProxy) isLocalhost(host string) bool {
-	host = strings.ToLower(host)
+	host = strings.ToLower(asciiHostname(host))
 
 	if slices.Contains(hp.localhost, host) {
 		return true
@@ -634,6 +637,20 @@ func (hp *HTTPProxy) isLocalhost(host string) bool {
 	}
 
 	return false
+}
+
+// asciiHostname returns the host name in the form the transport dials: net/http maps internationalized
+// host names to ASCII (IDNA) before connecting, which turns for instance "\u24dbocalhost" into "localhost".
+func asciiHostname(host string) string {
+	for i := 0; i < len(host); i++ {
+		if host[i] >= utf8.RuneSelf {
+			if a, err := idna.Lookup.ToASCII(host); err == nil {
+				return a
+			}
+			break
+		}
+	}
+	return host
 }
 
 func (hp *HTTPProxy) setBasicAuth(req *http.Request) error {
